@@ -5,7 +5,7 @@ import B6.Model.RecordsTokenMap
 Driver for C11 — every compact record kind through its codec.
 
 op     : `<kind>[!] <params…> | <value tokens> | <rest hex>`     (`!` = the Go side decoded into a used receiver)
-answer : `<marshalled hex> <bytes Unmarshal reported> | <decoded value tokens>` | `panic` | `<hex> panic`
+answer : `<marshalled hex> <bytes Unmarshal reported> | <decoded value tokens>` | `panic` | `<hex> panic` | `hang` | `<hex> hang`
 
 Per line the driver parses the value, marshals it with the model of `B6.Model.Records` (the bytes must equal the
 Go bytes; `none` must coincide with a Go panic), unmarshals *the Go bytes* `++ rest` with the model (decoded
@@ -289,6 +289,7 @@ def tokenMapStep (parts : List String) (impl : String) : Verdict :=
       | _ => none
     match parseAll (pCounted pAdd) (words addsS), parseAll (pCounted (pOf parseHex)) (words queriesS), parseHex (strim restS) with
     | some adds, some queries, some rest =>
+      if impl == "hang" then .propfail "terminates" else
       let enc := addAll adds
       let bytes := encode enc
       let m := decodeLength (bytes ++ rest)
@@ -337,6 +338,8 @@ def step (_ : Unit) (op impl : String) : Unit × Verdict :=
               | some (s, n) => s!"{renderHex mb} {n} | {s}"
               | none => s!"{renderHex mb} panic"
           if impl == "panic" then ((), if modelAnswer == "panic" then .ok else .diff modelAnswer) else
+          -- the harness gave up waiting for Marshal / Unmarshal (10 s): a codec must terminate on every value
+          if impl == "hang" || impl.endsWith " hang" then ((), .propfail "terminates") else
           match impl.splitOn " | " with
           | [_] =>
             -- `<hex> panic`: Unmarshal panicked on Marshal's own output — never acceptable inside the domain
